@@ -200,7 +200,7 @@ func c12TCP(tr *poolTracker, n int) {
 	cc := tcpclient.NewConnWithOpts(coapNet.NewConn(c1), &cfg)
 	runDone := make(chan struct{})
 	go func() { _ = cc.Run(); close(runDone) }()
-	for i := 0; i < n; i++ {
+	for i := 0; i < n && !tr.bad(); i++ {
 		ctx, cancel := context.WithTimeout(context.Background(), 3*time.Second)
 		_ = cc.Ping(ctx)
 		resp, err := cc.Get(ctx, fmt.Sprintf("/t%d", i))
@@ -213,137 +213,193 @@ func c12TCP(tr *poolTracker, n int) {
 		cancel()
 	}
 	_ = cc.Close()
+	_ = c1.Close() // the session does not own the socket: Run returns once the pipe is closed
 	select {
 	case <-runDone:
 	case <-time.After(3 * time.Second):
 	}
-	_ = c1.Close()
 	select {
 	case <-peerDone:
 	case <-time.After(time.Second):
 	}
 }
 
+// c12Out collects what a scenario wants to emit; it is applied to the Emitter by the main goroutine once the
+// scenario has returned (a scenario that hangs is abandoned together with its c12Out).
+type c12Out struct{ acts []func(e *Emitter) }
+
+func (o *c12Out) AddW(coq, desc string, nontrivial bool, weight int, hist ...string) {
+	o.acts = append(o.acts, func(e *Emitter) { e.AddW(coq, desc, nontrivial, weight, hist...) })
+}
+
+func (o *c12Out) Count(bucket string) {
+	o.acts = append(o.acts, func(e *Emitter) { e.Hist[bucket]++ })
+}
+
+// c12Scenario runs the scenario a descriptor names under a watchdog. A scenario that does not return is an
+// observable of its own: what the tracker has recorded so far is emitted as a `Hung` case (never accepted).
+func c12Scenario(e *Emitter, tr *poolTracker, desc string) {
+	if tr.nBroken >= 5 && e.Only == "" {
+		return // five traces with a violation are on file: no point in running the rest on a corrupted pool
+	}
+	out := &c12Out{}
+	done := make(chan interface{}, 1)
+	go func() {
+		defer func() { done <- recover() }()
+		c12ScenarioBody(out, tr, desc)
+	}()
+	limit := time.NewTimer(c12ScenarioLimit)
+	defer limit.Stop()
+	bad := tr.ctx().Done() // closed when the trace contains a violation: the scenario then gets 20 more seconds
+	for {
+		select {
+		case r := <-done:
+			if r != nil {
+				evs := tr.take()
+				e.AddW(fmt.Sprintf("Hung %s", coqLc(c12Cut(evs))), desc, false, 1+len(evs)/60, "panic")
+				return
+			}
+			for _, f := range out.acts {
+				f(e)
+			}
+			if ps := tr.takePanics(); len(ps) > 0 {
+				// library code panicked on a receive path: the model has no such run
+				e.AddW("Hung []", desc, false, 1, "panic")
+				if dbgC12() {
+					fmt.Println("panic in", desc, ":", ps[0])
+				}
+			}
+			return
+		case <-bad:
+			bad = nil
+			limit.Reset(20 * time.Second)
+		case <-limit.C:
+			tr.nBroken++
+			evs := tr.take()
+			e.AddW(fmt.Sprintf("Hung %s", coqLc(c12Cut(evs))), desc, false, 1+len(evs)/60, "hang")
+			return
+		}
+	}
+}
+
+var c12ScenarioLimit = 240 * time.Second
+
+func c12Cut(evs []lcEvent) []lcEvent {
+	if len(evs) > c12MaxEvents {
+		return evs[:c12MaxEvents]
+	}
+	return evs
+}
+
+func c12ScenarioBody(e *c12Out, tr *poolTracker, desc string) {
+	f := strings.SplitN(desc, "#", 2)
+	if len(f) != 2 {
+		return
+	}
+	switch f[0] {
+	case "A":
+		parts := strings.SplitN(f[1], "|", 2)
+		var getMID int32
+		fmt.Sscanf(parts[0], "%d", &getMID)
+		var evs []c05Ev
+		for _, s := range strings.Fields(parts[1]) {
+			evs = append(evs, parseC05Ev(s))
+		}
+		tr.scenario()
+		runC05History(evs, getMID)
+		emitTraceCap(e, tr, desc, "A", 64)
+	case "B":
+		parts := strings.SplitN(f[1], "|", 2)
+		var ack, maxrt, nst int
+		fmt.Sscanf(parts[0], "%d,%d,%d", &ack, &maxrt, &nst)
+		var evs []c06Ev
+		for _, s := range strings.Fields(parts[1]) {
+			evs = append(evs, parseC06Ev(s))
+		}
+		tr.scenario()
+		runC06History(evs, ack, maxrt, nst)
+		emitTraceCap(e, tr, desc, "B", 64)
+	case "T":
+		var n int
+		fmt.Sscanf(f[1], "%d", &n)
+		tr.scenario()
+		c12TCP(tr, n)
+		emitTraceCap(e, tr, desc, "T", 64)
+	case "C":
+		var seed uint64
+		var callers, per, peers int
+		fmt.Sscanf(f[1], "%d,%d,%d,%d", &seed, &callers, &per, &peers)
+		tr.scenario()
+		c12Concurrent(NewRng(seed), tr, callers, per, peers)
+		emitTraceCap(e, tr, desc, "C", 64)
+	case "P":
+		c12Pair(e, tr, desc, f[1])
+	case "N":
+		c12TCPPair(e, tr, desc, f[1])
+	case "S":
+		c12UDPServer(e, tr, desc, f[1])
+	case "Q":
+		c12PoolSeq(e, tr, desc, f[1])
+	case "R":
+		c12PoolPar(e, tr, desc, f[1])
+	}
+}
+
 func runC12(a runArgs) error {
 	e := NewEmitter("C12", "Pool.Run")
-	e.Preamble = "From GoCoap Require Import Pool.Model Pool.Spec."
+	e.Preamble = "From GoCoap Require Import Pool.Model Pool.Spec Pool.Bounded."
 	e.ShardSize = 60
-	e.Rule = "complete pool lifecycle traces (release / recycle / re-acquire reported by the verif hook in message/pool, plus hold / unhold / application-release events of the harness) of three scenario families on a real udp/client.Conn over an in-memory session: (A) server-role request histories with duplicates, ageing and ticks (generator of C05); (B) client-role Do histories with retransmission ticks, ACK/RST/piggybacked/separate responses and cancellations (generator of C06); (C) concurrent callers + responder + peer requests + housekeeping ticks. Distinct = distinct trace; non-trivial = the trace contains at least one re-acquisition of a recycled message and one application hold."
+	e.Rule = "complete pool lifecycle traces (release / recycle / re-acquire reported by the verif hook in message/pool, plus hold / unhold / application-release events of the harness with a content digest at hand-over and at the end of the hold). Families on a real udp/client.Conn over an in-memory session: (A) server-role request histories with duplicates, ageing and ticks (generator of C05); (B) client-role Do histories with retransmission ticks, ACK/RST/piggybacked/separate responses and cancellations (generator of C06); (C) concurrent callers + responder + peer requests + housekeeping ticks; (T) tcp/client.Conn against a scripted peer. (P) the exchange histories of C13 on a back-to-back pair of real udp/client.Conn, tracker on both: block-wise up/down incl. abandoned transfers, observe + notifications + cancel, ping answered/lost/cancelled, one-way writes, duplicated and dropped datagrams, limiter-queued-then-cancelled, separate pools or one small shared pool; (N) a tcp/client.Conn against the library's tcp server over an in-memory stream: CSM, block-wise up/down, observe with block-wise notifications, ping; (S) the library's udp server on a loopback socket with several clients from udp.Dial: plain, block-wise, observe, ping, one-way; (Q) sequential acquire/release scripts on a small pool compared step by step with the counter model; (R) goroutines hammering one small pool. Distinct = distinct trace; non-trivial = the trace contains at least one re-acquisition of a recycled message and one application hold (Q: at least one release refused by a full pool)."
 	rng := NewRng(a.seed)
 	tr := newPoolTracker()
 	pool.VerifSetTracker(tr)
 	activeTracker = tr
 	defer func() { activeTracker = nil; pool.VerifSetTracker(nil) }()
 
-	emitTrace := func(desc string, fam string) {
-		evs := tr.take()
-		re, ho := false, false
-		for _, x := range evs {
-			if x.Kind == "Reacq" {
-				re = true
-			}
-			if x.Kind == "Hold" {
-				ho = true
-			}
-		}
-		w := 1 + len(evs)/60
-		e.AddW(fmt.Sprintf("Trace 64 %s", coqLc(evs)), desc, re && ho, w, fam, fmt.Sprintf("events<%d", (len(evs)/100+1)*100))
-		// fresh numbering per scenario keeps the object ids small
-		tr.mu.Lock()
-		tr.ids = map[*pool.Message]int{}
-		tr.holds = map[*pool.Message]uint64{}
-		tr.mu.Unlock()
-	}
-
 	if a.only != "" {
-		f := strings.SplitN(a.only, "#", 2)
-		switch f[0] {
-		case "A":
-			parts := strings.SplitN(f[1], "|", 2)
-			var getMID int32
-			fmt.Sscanf(parts[0], "%d", &getMID)
-			var evs []c05Ev
-			for _, s := range strings.Fields(parts[1]) {
-				evs = append(evs, parseC05Ev(s))
-			}
-			tr.take()
-			runC05History(evs, getMID)
-			emitTrace(a.only, "A")
-		case "B":
-			parts := strings.SplitN(f[1], "|", 2)
-			var ack, maxrt, nst int
-			fmt.Sscanf(parts[0], "%d,%d,%d", &ack, &maxrt, &nst)
-			var evs []c06Ev
-			for _, s := range strings.Fields(parts[1]) {
-				evs = append(evs, parseC06Ev(s))
-			}
-			tr.take()
-			runC06History(evs, ack, maxrt, nst)
-			emitTrace(a.only, "B")
-		case "T":
-			var n int
-			fmt.Sscanf(f[1], "%d", &n)
-			tr.take()
-			c12TCP(tr, n)
-			emitTrace(a.only, "T")
-		case "C":
-			var seed uint64
-			var callers, per, peers int
-			fmt.Sscanf(f[1], "%d,%d,%d,%d", &seed, &callers, &per, &peers)
-			tr.take()
-			c12Concurrent(NewRng(seed), tr, callers, per, peers)
-			emitTrace(a.only, "C")
-		}
+		c12Scenario(e, tr, a.only)
 		return e.Flush(a.out)
 	}
 
+	thorough := a.tier == "thorough"
 	nA, nB, nC := 40, 40, 10
-	if a.tier == "thorough" {
+	if thorough {
 		nA, nB, nC = 400, 400, 120
 	}
-	// family A: reuse the C05 generator by running its emitter into a throw-away Emitter
 	{
 		sub := NewRng(rng.U64())
 		for i := 0; i < nA; i++ {
 			evs, getMID := genC05History(sub, a.tier)
-			tr.take()
-			runC05History(evs, getMID)
-			emitTrace("A#"+c05Desc(evs, getMID), "A")
+			c12Scenario(e, tr, "A#"+c05Desc(evs, getMID))
 		}
+	}
+	b := func(evs []c06Ev, ack, maxrt, nst int) {
+		parts := make([]string, len(evs))
+		for j, ev := range evs {
+			parts[j] = ev.desc()
+		}
+		c12Scenario(e, tr, fmt.Sprintf("B#%d,%d,%d|%s", ack, maxrt, nst, strings.Join(parts, " ")))
 	}
 	{
 		sub := NewRng(rng.U64())
 		for i := 0; i < nB; i++ {
 			evs, ack, maxrt, nst := genC06History(sub)
-			tr.take()
-			runC06History(evs, ack, maxrt, nst)
-			parts := make([]string, len(evs))
-			for j, ev := range evs {
-				parts[j] = ev.desc()
-			}
-			emitTrace(fmt.Sprintf("B#%d,%d,%d|%s", ack, maxrt, nst, strings.Join(parts, " ")), "B")
+			b(evs, ack, maxrt, nst)
 		}
 	}
 	for _, c := range canonC06() {
-		tr.take()
-		runC06History(c.evs, c.ack, c.maxrt, c.nst)
-		parts := make([]string, len(c.evs))
-		for j, ev := range c.evs {
-			parts[j] = ev.desc()
-		}
-		emitTrace(fmt.Sprintf("B#%d,%d,%d|%s", c.ack, c.maxrt, c.nst, strings.Join(parts, " ")), "B")
+		b(c.evs, c.ack, c.maxrt, c.nst)
 	}
 	for i := 0; i < 6; i++ {
-		tr.take()
-		c12TCP(tr, 3+i%3)
-		emitTrace(fmt.Sprintf("T#%d", 3+i%3), "T")
+		c12Scenario(e, tr, fmt.Sprintf("T#%d", 3+i%3))
 	}
 	for i := 0; i < nC; i++ {
 		seed := rng.U64() % 1000000
 		callers, per, peers := 2+rng.Intn(3), 3+rng.Intn(3), 6+rng.Intn(8)
-		tr.take()
-		c12Concurrent(NewRng(seed), tr, callers, per, peers)
-		emitTrace(fmt.Sprintf("C#%d,%d,%d,%d", seed, callers, per, peers), "C")
+		c12Scenario(e, tr, fmt.Sprintf("C#%d,%d,%d,%d", seed, callers, per, peers))
+	}
+	for _, d := range c12MoreDescriptors(NewRng(rng.U64()), thorough) {
+		c12Scenario(e, tr, d)
 	}
 	return e.Flush(a.out)
 }
